@@ -460,4 +460,59 @@ theorem flat_ring_polygon_invalid (o : Oracle) (a b c : Pt) (hab : a ≠ b) (hbc
   rw [h] at hmem
   simp at hmem
 
+/-! ## 5. What the pairwise segment test reports, pair by pair (ring-local)
+
+`selfIntersection_iff` of DESIGN §7 (`hasSelfIntersection r = false ↔ ringSimple r` for rings of at
+least 4 coordinates) is NOT proved here; what is proved is the exact meaning of the loop, pair by
+pair, and the F8 class in full (§4). The equivalence with `ringSimple` is exercised on every
+generated ring by the correspondence (clauses `false-accept:ring-not-simple`,
+`false-reject:PG.SelfInt`, `error-names-no-such-defect:PG.SelfInt`).
+-- full statement kept for the record:
+-- theorem selfIntersection_iff (r : List Pt) (h4 : (dedupConsecutive r).length ≥ 4) :
+--     hasSelfIntersection r = false ↔ ringSimple r = true
+-/
+
+/-- [T] the double loop fires exactly when some ordered pair of distinct segments is `pairBad` -/
+theorem selfIntersection_iff_pair (r : List Pt) :
+    hasSelfIntersection r = true ↔
+      ∃ (i j : Nat) (l o : Pt × Pt), i ≠ j ∧ (segs r)[i]? = some l ∧ (segs r)[j]? = some o ∧ pairBad l o = true := by
+  simp only [hasSelfIntersection, List.any_eq_true, Bool.and_eq_true, bne_iff_ne, ne_eq]
+  constructor
+  · rintro ⟨li, hli, oj, hoj, hne, hb⟩
+    rw [List.mem_zipIdx_iff_getElem?] at hli hoj
+    exact ⟨li.2, oj.2, li.1, oj.1, hne, hli, hoj, hb⟩
+  · rintro ⟨i, j, l, o, hne, hl, ho, hb⟩
+    exact ⟨(l, i), by rw [List.mem_zipIdx_iff_getElem?]; exact hl,
+      (o, j), by rw [List.mem_zipIdx_iff_getElem?]; exact ho, hne, hb⟩
+
+/-- [T] two segments that are not chained (neither starts where the other ends) are reported
+exactly when they have a point in common (`Line: Intersects<Line>`) -/
+theorem pairBad_unchained (l o : Pt × Pt) (h1 : l.1 ≠ o.2) (h2 : l.2 ≠ o.1) :
+    pairBad l o = lineLine l.1 l.2 o.1 o.2 := by
+  have e1 : (l.1 != o.2) = true := by simp [h1]
+  have e2 : (l.2 != o.1) = true := by simp [h2]
+  simp [pairBad, e1, e2]
+
+/-- [T] the F8 fix, pair-local: two consecutive non-degenerate segments `a→b`, `b→c` (with
+`c ≠ a`) are reported exactly when `a`, `b`, `c` are collinear and `a`, `c` lie on the same side
+of the shared vertex `b` — i.e. when the second segment runs back over the first. On the pinned
+tree such a pair was never reported (`three_segment_ring_accepted_on_pinned_tree`). -/
+theorem chained_pair_flagged_iff (a b c : Pt) (hab : a ≠ b) (hbc : b ≠ c) :
+    pairBad (a, b) (b, c) = true ↔
+      orient a b c = .col ∧ (sameSide a.x b.x c.x || sameSide a.y b.y c.y) = true := by
+  constructor
+  · intro h
+    have hab' : (a == b) = false := by simp [hab]
+    have hbc' : (b == c) = false := by simp [hbc]
+    simp only [pairBad, chainedOverlap, hab', hbc', bne_self_eq_false, Bool.and_false,
+      Bool.false_or, Bool.or_self, Bool.false_eq_true, if_false, beq_self_eq_true, if_true,
+      Bool.and_eq_true, beq_iff_eq] at h
+    exact ⟨h.2.1, by simpa using h.2.2⟩
+  · rintro ⟨hcol, hs⟩
+    exact pairBad_chain a b c hab hbc hcol hs
+
+example : pairBad (⟨0, 0⟩, ⟨2, 0⟩) (⟨2, 0⟩, ⟨1, 0⟩) = true :=
+  (chained_pair_flagged_iff ⟨0, 0⟩ ⟨2, 0⟩ ⟨1, 0⟩ (by decide) (by decide)).mpr
+    ⟨by simp [orient, cross], by simp [sameSide]⟩
+
 end Geo.Proofs.C14
